@@ -10,7 +10,9 @@ Import ListNotations.
 Local Open Scope Z_scope.
 
 (* generated TrapezoidalGrid1D.level_to_num_points_1d on the whole interval (start = a, end = b) = the model's point count,
-   every level >= 0, boundary points on and off (Python returns the int, the translation reads 2 ** level as a rational) *)
+   every level >= 0, boundary points on and off (Python returns the int, the translation reads 2 ** level as a rational).
+   Holds (same statement, same proof script) for both versions of the boundary tests in the source: math.isclose(start, a) /
+   end == b, and Grid1d.touches_lower_boundary / touches_upper_boundary with the tolerance 1e-8 * |b - a| *)
 Theorem C02_gen_level_to_num_points : forall bd a b l, 0 <= l ->
   TrapezoidalGrid1D_level_to_num_points_1d bd a b a b l = Some (qc_of_Z (num_points_1d bd l)).
 Proof. exact gen_num_points_is_model. Qed.
